@@ -308,8 +308,8 @@ func (d *drv) gobStream() error {
 	g := &gobGen{r: d.cfg.Rng}
 	type gcase struct {
 		op, tree, why string
-		toks      []tok
-		raw       []byte // non-nil: byte-level mutation, no model input
+		toks          []tok
+		raw           []byte // non-nil: byte-level mutation, no model input
 	}
 	var cs []gcase
 	nMz, nEntry, nRaw := d.cfg.Pick(220, 4000), d.cfg.Pick(120, 2000), d.cfg.Pick(150, 3000)
